@@ -173,6 +173,11 @@ class String(Object, str):
             # `#[f[...]f]` and `#[f-x[...]f-x]` are read as f-strings.
             raise ValueError(
                 f"A bracket string delimited by {brackets!r} is an f-string; use `FString`")
+        if brackets is not None and "\r" in value:
+            # The reader turns every carriage return in a bracket string
+            # into a line feed (or drops it, in front of one).
+            raise ValueError(
+                f"A bracket string can't contain a carriage return: {s!r}")
         value.brackets = brackets
         return value
 
